@@ -381,9 +381,14 @@ def run_case(config, case, mod):
                  for pa in arrays}
     out['ghosts_present'] = sum(v[1] for v in out['n0'].values())
     marks = []
+    out['raised'] = None
     for t, dt in case['steps']:
         marks.append(int(clk[0]))
-        integ.step(t, dt)
+        try:
+            integ.step(t, dt)
+        except (AttributeError, IndexError) as e:
+            out['raised'] = type(e).__name__
+            break
     n = int(clk[0])
     out['overflow'] = n >= MAXEV
     ev = elog[:NF * min(n, MAXEV)].reshape(-1, NF).copy()
@@ -519,10 +524,10 @@ class Literal(object):
                         nm, mwire(m), i, H.fbits(self._cur), H.fbits(self._dt)))
 
     def compute_accelerations(self, index=0, update_nnps=True):
-        if not 0 <= index < self._nev:
-            raise IndexError(index)
         if update_nnps:
             self.ev.append('n')
+        if not 0 <= index < self._nev:
+            raise IndexError(index)
         self.refreshed.append(bool(update_nnps))
         self.ev.append('e:%d:%s:%s' % (index, H.fbits(self._cur), H.fbits(self._dt)))
 
@@ -545,7 +550,11 @@ def literal_events(config, case, cls, n0):
         try:
             cls.one_timestep(lit, t, dt)
         except (AttributeError, IndexError) as e:
-            return None, 'literal execution raises %s(%s)' % (type(e).__name__, e)
+            # executing the method literally fails here, after the statements
+            # before it: so must the compiled integrator
+            ev += lit.ev + ['x:' + type(e).__name__]
+            refreshed += lit.refreshed
+            break
         ev += lit.ev
         refreshed += lit.refreshed
     return ev, refreshed
@@ -763,6 +772,8 @@ def worker(job):
                 results.append(r)
                 continue
             obs, probs = canon_observed(config, case, out)
+            if out['raised']:
+                obs.append('x:' + out['raised'])
             r['observed'] = obs
             r['problems'] = probs
             r['n0'] = out['n0']
@@ -922,7 +933,10 @@ def generated_config(rng, idx, allow_error=False):
         body.append('    self.stage%d()' % k)
         body.append('    ' + gen_accel(rng, nev))
     if allow_error:
-        body.insert(rng.randrange(len(body) + 1), 'self.stage%d()' % (nst + 1))
+        bad = rng.choice(['self.stage%d()' % (nst + 1),
+                          'self.compute_accelerations(%d)' % nev,
+                          'self.compute_accelerations(%d, update_nnps=False)' % (nev + 1)])
+        body.insert(rng.randrange(len(body) + 1), bad)
     if not body:
         body = ['pass']
     src = 'def one_timestep(self, t, dt):\n' + \
@@ -971,7 +985,7 @@ def gen_case(rng, config, prog, k):
         else:
             t = rng.uniform(0, 10)
     grow = {}
-    if not has_stale_eval(prog) and rng.random() < 0.4:
+    if not has_stale_eval(prog) and rng.random() < 0.7:
         for a in config['arrays']:
             st = a.get('stepper')
             if st and st['hooks'] and rng.random() < 0.7:
@@ -1093,9 +1107,8 @@ def evaluate(jobs_out, tab, R, gen_table):
         R.count('stages:%d' % len([c for c in prog if c[0] == 'S']))
         if 'compile_error' in r:
             R.count('compile-error-cases')
-            if m_impl != 'compile-error':
-                R.disagree(full, m_impl[:200], 'compile-error: ' + r['compile_error'],
-                           'model runs a program the real pipeline rejects')
+            R.disagree(full, m_impl[:200], 'compile-error: ' + r['compile_error'],
+                       'model runs a program the real pipeline rejects')
             if r['literal'] is not None:
                 R.prop_fail('C04:%s:does-not-compile' % who, full,
                             'one_timestep executes literally (%d events)' % len(r['literal']),
@@ -1108,9 +1121,9 @@ def evaluate(jobs_out, tab, R, gen_table):
         obs = r['observed']
         mi = [] if m_impl == '_' else m_impl.split(' ')
         ml = [] if m_lit == '_' else m_lit.split(' ')
-        if m_impl == 'compile-error':
-            R.disagree(full, 'compile-error', obs[:5], 'model rejects a program that compiles')
-        else:
+        if obs and obs[-1].startswith('x:'):
+            R.count('run-aborts-with-' + obs[-1][2:])
+        if True:
             if mi != obs:
                 R.disagree(full, first_diff(mi, obs), 'first difference (model, impl) of %d/%d events'
                            % (len(mi), len(obs)), 'event trace: Stepper.runR vs compiled integrator')
@@ -1296,6 +1309,25 @@ def corpus_configs(tab):
                   'steps': [[0.3, 0.1]], 'cb': False,
                   'mv': {'wall': 0, 'b2': 0, 'a_in': 2, 'Zed': 1},
                   'sid': {'wall': 1, 'b2': 0, 'a_in': 2, 'Zed': 3}, 'grow': {}}]))
+    # a one_timestep that calls a stage no stepper defines / an evaluator that
+    # does not exist: Cython turns the call into a run-time lookup, the step
+    # aborts THERE (AttributeError / IndexError after the neighbour refresh),
+    # exactly like the literal execution
+    src = ('def one_timestep(self, t, dt):\n    self.stage1()\n    self.do_post_stage(0.5*dt, 1)\n'
+           '    self.compute_accelerations(1)\n    self.stage3()\n    self.do_post_stage(dt, 3)\n')
+    out.append(({'integrator': {'kind': 'generated', 'source': src},
+                 'arrays': [{'name': 'fluid', 'stepper': {'cls': 'K2', 'methods': ['stage1', 'stage2'],
+                                                          'hooks': ['stage1']}}],
+                 'nev': 1},
+                [{'x': {'fluid': [0, 20, 63]}, 'steps': [[0.5, 0.25], [0.75, 0.25]], 'cb': True,
+                  'mv': {'fluid': 1}, 'sid': {'fluid': 5}, 'grow': {}}]))
+    src2 = src.replace('self.compute_accelerations(1)', 'self.compute_accelerations(0)')
+    out.append(({'integrator': {'kind': 'generated', 'source': src2},
+                 'arrays': [{'name': 'fluid', 'stepper': {'cls': 'K2', 'methods': ['stage1', 'stage2'],
+                                                          'hooks': ['stage1']}}],
+                 'nev': 1},
+                [{'x': {'fluid': [0, 20, 63]}, 'steps': [[0.5, 0.25], [0.75, 0.25]], 'cb': True,
+                  'mv': {'fluid': 1}, 'sid': {'fluid': 5}, 'grow': {'fluid': {'stage1': 1}}}]))
     return out
 
 
